@@ -158,10 +158,10 @@ def verus_property(pid, prop, tier, seed, out, work):
     retries = []
     if not res.compile_error and (res.failures or not res.ok):
         failing = {f["function"] for f in res.failures}
-        for alt_seed in (7919, 104729):
+        for alt_seed, rl2 in ((7919, rlimit), (104729, min(300, rlimit * 3))):
             if not failing:
                 break
-            r2 = verus_run.run_verus(gen, rlimit=rlimit, fn_spans=fspans, seed=alt_seed)
+            r2 = verus_run.run_verus(gen, rlimit=rl2, fn_spans=fspans, seed=alt_seed)
             if r2.compile_error:
                 break
             still = {f["function"] for f in r2.failures}
@@ -171,6 +171,12 @@ def verus_property(pid, prop, tier, seed, out, work):
                 if name in r2.functions:
                     res.functions[name] = r2.functions[name]
             res.failures = [f for f in res.failures if f["function"] in still]
+            # a definite failure from any run replaces a mere resource-limit report for the same function
+            for name in failing & still:
+                if all(f["rlimit"] for f in res.failures if f["function"] == name):
+                    definite = [f for f in r2.failures if f["function"] == name and not f["rlimit"]]
+                    if definite:
+                        res.failures = [f for f in res.failures if f["function"] != name] + definite
             failing &= still
         res.ok = not res.failures
     cov = out.evidence["coverage"]
@@ -253,6 +259,17 @@ def verus_property(pid, prop, tier, seed, out, work):
             if f["function"] in tainted:
                 out.undecided.append("obligation %s depends on `%s`, a function without a contract in the overlay (needs a contract, not a verdict)" % (
                     verus_run.obligation_name(f), ", ".join(sorted(uncontracted))))
+            else:
+                keep.append(f)
+        real = keep
+    # Safety obligations (overflow, bounds, division by zero, termination) are the subject of C07.  Under any other
+    # property a failed safety obligation does not contradict that property's statement; it is left to C07 and
+    # reported here as undecided.
+    if not prop.get("owns_safety_obligations"):
+        keep = []
+        for f in real:
+            if f["kind"] in ("overflow", "index", "div-by-zero", "decreases", "unreachable"):
+                out.undecided.append("safety obligation %s not discharged (decided under C07, not a verdict on %s)" % (verus_run.obligation_name(f), pid))
             else:
                 keep.append(f)
         real = keep
@@ -347,7 +364,13 @@ def report(out, prop, work):
             code = 1
             cx.update(found=True)
         else:
-            cx.update(found=False, evaluations=r.get("evaluations", 0), distinct_inputs=r.get("distinct", 0))
+            cx.update(found=False, evaluations=r.get("evaluations", 0), distinct_inputs=r.get("distinct", 0), samples=r.get("samples", [])[:6])
+            if out.evidence["level"] != "proof":
+                cov = out.evidence["coverage"]
+                cov["evaluations"] = r.get("evaluations", 0)
+                cov["distinct_nontrivial"] = r.get("distinct", 0)
+                cov["rule"] = "inputs of the property's replay probes (boundary lattice + VERIF_SEED-seeded random); distinct = distinct input vectors; each is evaluated on the real public API and on the executable oracle"
+                cov["samples"] = r.get("samples", [])[:6]
         out.evidence["coverage"]["concrete_cross_validation"] = cx
     for v in getattr(out, "kani_violations", []):
         print("VIOLATION property=%s replay=%s%s" % (pid, v["replay"], "" if v.get("has_input") else " no-failing-input-found"))
